@@ -1241,7 +1241,10 @@ func (x *Placeholder) Set(val Native) error {
 	}
 
 	// Replace all previously written placeholders with the final value.
-	x.pdf.w.Flush()
+	err = x.pdf.w.Flush()
+	if err != nil {
+		return err
+	}
 	fill := x.pdf.origW.(io.WriteSeeker)
 	currentPos, err := fill.Seek(0, io.SeekCurrent)
 	if err != nil {
@@ -1252,7 +1255,10 @@ func (x *Placeholder) Set(val Native) error {
 		if err != nil {
 			return err
 		}
-		_, err = fill.Write(fills[i])
+		n, err := fill.Write(fills[i])
+		if err == nil && n < len(fills[i]) {
+			err = io.ErrShortWrite
+		}
 		if err != nil {
 			return err
 		}
